@@ -128,7 +128,7 @@ UpdateRoute(root, path) ==
 
 \* ---- remove ----------------------------------------------------------------------------------------
 Merged(n, child) == Node(n.k \o child.k, child.r, child.c)
-Without(n, i) == [j \in 1..(Len(n.c) - 1) |-> IF j < i THEN n.c[j] ELSE n.c[j + 1]]
+KidsWithout(n, i) == [j \in 1..(Len(n.c) - 1) |-> IF j < i THEN n.c[j] ELSE n.c[j + 1]]
 
 RemoveRoute(root, path) ==
   LET s == Search(root, path)
@@ -139,13 +139,13 @@ RemoveRoute(root, path) ==
      ELSE \* a childless leaf goes away; its parent may have to be merged with what remains
        LET pTrail == DropLast(s.trail)
            p == NodeAt(root, pTrail)
-           pEdges == Without(p, LastOf(s.trail))
+           pEdges == KidsWithout(p, LastOf(s.trail))
            pIsRoot == pTrail = <<>>
        IN IF pEdges = <<>> /\ ~IsLeaf(p) /\ ~pIsRoot THEN
              \* p only existed to hold the path of a hostname: it goes away too
              LET ppTrail == DropLast(pTrail)
                  pp == NodeAt(root, ppTrail)
-                 ppEdges == Without(pp, LastOf(pTrail))
+                 ppEdges == KidsWithout(pp, LastOf(pTrail))
                  ppIsRoot == ppTrail = <<>>
                  parent == IF Len(ppEdges) = 1 /\ ~IsLeaf(pp) /\ ppEdges[1].k[1] # "/" /\ ~ppIsRoot
                              THEN Merged(pp, ppEdges[1])
